@@ -19,6 +19,95 @@ pub struct Case {
     pub script: Vec<Cmd>,
     #[serde(default)]
     pub aux: Vec<Vec<AuxCmd>>,
+    /// Component harness case (C12, C13, C15): when present, the bench above is
+    /// empty and the component scenario below runs instead of a simulation.
+    #[serde(default, skip_serializing_if = "Option::is_none")]
+    pub comp: Option<Comp>,
+}
+
+#[derive(Clone, Debug, Serialize, Deserialize, PartialEq)]
+pub enum Comp {
+    Queue(QueueCase),
+    Chan(ChanCase),
+    Task(TaskCase),
+    Time(TimeCase),
+}
+
+/// Operations on the raw mailbox queue.
+#[derive(Clone, Copy, Debug, Serialize, Deserialize, PartialEq)]
+pub enum QOp {
+    Push(u64),
+    /// Pop and keep the borrow (the slot stays occupied).
+    Pop,
+    /// Release the outstanding borrow, if any.
+    Release,
+    Close,
+    Yield,
+}
+
+#[derive(Clone, Debug, Serialize, Deserialize, PartialEq)]
+pub struct QueueCase {
+    pub cap: u8,
+    /// Producer threads (push / close / yield).
+    pub producers: Vec<Vec<QOp>>,
+    /// The single consumer thread (pop / release / close / yield).
+    pub consumer: Vec<QOp>,
+}
+
+/// Scenario on the real asynchronous channel.
+#[derive(Clone, Debug, Serialize, Deserialize, PartialEq)]
+pub struct ChanCase {
+    pub cap: u8,
+    /// Values sent by each producer thread, in order.
+    pub producers: Vec<Vec<u64>>,
+    /// The receiver closes the channel after this many messages (`None`: never).
+    #[serde(default)]
+    pub close_after: Option<u8>,
+    /// Producer `p` closes the channel after its `k`-th send.
+    #[serde(default)]
+    pub sender_close: Option<(u8, u8)>,
+}
+
+/// Handle operations on one task.
+#[derive(Clone, Copy, Debug, Serialize, Deserialize, PartialEq)]
+pub enum TOp {
+    /// Take a runnable from the run queue and run it.
+    Run,
+    /// Take a runnable from the run queue and drop it.
+    DropRunnable,
+    WakeVal,
+    WakeRef,
+    CloneWaker,
+    DropWaker,
+    Cancel,
+    DropToken,
+    PollPromise,
+    DropPromise,
+    Yield,
+}
+
+#[derive(Clone, Debug, Serialize, Deserialize, PartialEq)]
+pub struct TaskCase {
+    /// `true`: `spawn` (with a promise); `false`: `spawn_and_forget`.
+    pub with_promise: bool,
+    /// The future completes at its n-th poll (1-based).
+    pub ready_at: u8,
+    /// The future wakes itself (by reference) while being polled.
+    pub self_wake: bool,
+    /// The future panics at this poll (1-based), if any.
+    #[serde(default)]
+    pub panic_at: Option<u8>,
+    pub threads: Vec<Vec<TOp>>,
+}
+
+#[derive(Clone, Debug, Serialize, Deserialize, PartialEq)]
+pub struct TimeCase {
+    /// Number of writes of the single writer.
+    pub writes: u8,
+    /// Per reader: sequence of reads (`true`: `read()`, `false`: `try_read()`).
+    pub readers: Vec<Vec<bool>>,
+    /// Step between consecutive time values: whole seconds, nanoseconds.
+    pub step: (u32, u32),
 }
 
 #[derive(Clone, Debug, Serialize, Deserialize, PartialEq)]
